@@ -229,26 +229,26 @@ impl ArcExpression {
             Greater(lhs, rhs) => {
                 let lhs = lhs.eval(binding, config, graph_matcher)?;
                 let rhs = rhs.eval(binding, config, graph_matcher)?;
-                lhs.sparql_cmp(&rhs)
-                    .map(|ord| EvalResult::from(ord.is_gt()))
+                lhs.sparql_compare(&rhs, Ordering::is_gt)
+                    .map(EvalResult::from)
             }
             GreaterOrEqual(lhs, rhs) => {
                 let lhs = lhs.eval(binding, config, graph_matcher)?;
                 let rhs = rhs.eval(binding, config, graph_matcher)?;
-                lhs.sparql_cmp(&rhs)
-                    .map(|ord| EvalResult::from(ord.is_ge()))
+                lhs.sparql_compare(&rhs, Ordering::is_ge)
+                    .map(EvalResult::from)
             }
             Less(lhs, rhs) => {
                 let lhs = lhs.eval(binding, config, graph_matcher)?;
                 let rhs = rhs.eval(binding, config, graph_matcher)?;
-                lhs.sparql_cmp(&rhs)
-                    .map(|ord| EvalResult::from(ord.is_lt()))
+                lhs.sparql_compare(&rhs, Ordering::is_lt)
+                    .map(EvalResult::from)
             }
             LessOrEqual(lhs, rhs) => {
                 let lhs = lhs.eval(binding, config, graph_matcher)?;
                 let rhs = rhs.eval(binding, config, graph_matcher)?;
-                lhs.sparql_cmp(&rhs)
-                    .map(|ord| EvalResult::from(ord.is_le()))
+                lhs.sparql_compare(&rhs, Ordering::is_le)
+                    .map(EvalResult::from)
             }
             In(lhs, rhs) => {
                 let lhs = lhs.eval(binding, config, graph_matcher)?;
@@ -465,6 +465,19 @@ impl EvalResult {
             } else {
                 None // distinct unrecognized literals can not be compared
             }
+        }
+    }
+
+    /// Evaluate one of the operators `<`, `<=`, `>`, `>=`, given as a predicate on [`Ordering`].
+    ///
+    /// Unlike [`sparql_cmp`](Self::sparql_cmp), this supports numbers that have no order (NaN):
+    /// comparing them is not an error, every operator returns false
+    /// ([op:numeric-less-than](https://www.w3.org/TR/xpath-functions/#func-numeric-less-than)).
+    pub fn sparql_compare(&self, other: &Self, pred: fn(Ordering) -> bool) -> Option<bool> {
+        if let (Some(s), Some(o)) = (self.as_number(), other.as_number()) {
+            Some(s.partial_cmp(&o).is_some_and(pred))
+        } else {
+            self.sparql_cmp(other).map(pred)
         }
     }
 
